@@ -130,8 +130,10 @@ def onRx (g : Ghost) (seg : List Nat) (implOk : Bool) (now : Nat) : Ghost × Opt
         if g.initiator then
           match decodeResp payload with
           | .ok r =>
-            ({ g with hasWindow := true, reasm := {}, fetched := [], fetchedCaps := [],
-                      view := { lastSeq := 0, window := r.windowSize, unackedRx := 0, lastSent := 255,
+            -- the handshake response is the responder's segment number 0: it takes one slot of the
+            -- window and has to be acknowledged like every other segment (deadline from now on)
+            ({ g with hasWindow := true, reasm := {}, fetched := [], fetchedCaps := [], lastRxAt := now,
+                      view := { lastSeq := 0, window := r.windowSize, unackedRx := 1, lastSent := 255,
                                 outstanding := 0, remaining := 0, segSize := 0 } }, none)
           | .error _ => (g, none)
         else
@@ -157,8 +159,14 @@ def onRx (g : Ghost) (seg : List Nat) (implOk : Bool) (now : Nat) : Ghost × Opt
         ({ g with view := v', reasm := g.reasm.feed h payload, lastRxAt := now }, why)
       else (g, none)
 
+/-- an acknowledgement is pending (something accepted since our last acknowledgement, and no
+complete message waiting to be fetched) and its deadline has passed -/
+def ackOverdue (g : Ghost) (now : Nat) : Bool :=
+  g.hasWindow && g.view.unackedRx > 0 && g.fetched.length == g.reasm.done.length
+    && g.lastRxAt + ackTimeoutSecs ≤ now
+
 /-- ghost update + specification check for a segment emitted by end `x` -/
-def onTx (g : Ghost) (seg : List Nat) : Ghost × Option String :=
+def onTx (g : Ghost) (seg : List Nat) (now : Nat) : Ghost × Option String :=
   match decodeHdr seg with
   | .error _ => (g, some "emitted an undecodable segment")
   | .ok (h, payload) =>
@@ -177,14 +185,9 @@ def onTx (g : Ghost) (seg : List Nat) : Ghost × Option String :=
       let why :=
         if h.seqNum ≠ (v.lastSent + 1) % 256 then some s!"emitted sequence number {h.seqNum} after {v.lastSent}"
         else if v'.outstanding > v.window then some s!"{v'.outstanding} unacknowledged segments in flight, window {v.window}"
+        else if !h.ack && ackOverdue g now then some "an acknowledgement is overdue, but the segment emitted does not carry it"
         else none
       ({ g with view := v' }, why)
-
-/-- an acknowledgement is pending (something accepted since our last acknowledgement, and no
-complete message waiting to be fetched) and its deadline has passed -/
-def ackOverdue (g : Ghost) (now : Nat) : Bool :=
-  g.hasWindow && g.view.unackedRx > 0 && g.fetched.length == g.reasm.done.length
-    && g.lastRxAt + ackTimeoutSecs ≤ now
 
 def failStr : Fail → String
   | .panic _ => "panic"
@@ -285,7 +288,7 @@ def step (st : St) (line : String) : St × String :=
           | some seg => l'.setInq x.other (st.link.inq x.other ++ [seg])
           | none => l'.setInq x.other (st.link.inq x.other)
         let (g', why) : Ghost × Option String := match implSeg with
-          | some seg => onTx g seg
+          | some seg => onTx g seg st.now
           | none =>
             if res = "none" && ackOverdue g st.now && g.view.outstanding < g.view.window then
               (g, some "an acknowledgement is overdue and the send window has room, but nothing was sent")
